@@ -22,7 +22,7 @@ fn c14_decode_table() {
 
 //# kind=complete tier=quick props=C14 fns=Base64Decoder::decode_u8x4,Base64Decoder::decode_size | decode_u8x4(enc3(a,b,c)) == [a,b,c] for all 2^24 groups; padded quanta `xx==` / `xxx=` give size 1 / 2 and the right leading bytes; decode_size is 3 without padding
 #[kani::proof]
-#[kani::unwind(2)]
+#[kani::unwind(6)]
 fn c14_quantum_roundtrip() {
     let a: u8 = kani::any();
     let b: u8 = kani::any();
@@ -66,9 +66,9 @@ impl Read for SlowReader {
     }
 }
 
-//# kind=bounded tier=quick props=C14 bound="one or two quanta (4 or 8 text bytes), reader step 1..=4, destination buffer 1..=6" fns=Base64Decoder::read,Base64Decoder::buffer_fill | decoding valid base64 text through a reader that returns 1..=4 bytes per read yields the original bytes for every destination buffer size (bounded twin of the Verus unit; counterexample provider)
+//# kind=bounded tier=thorough props=C14 bound="one quantum (4 text bytes), reader hands out 1..=4 bytes per read call, destination buffer of 3" fns=Base64Decoder::read,Base64Decoder::buffer_fill | decoding a valid quantum through a reader that returns fewer bytes than asked (any step 1..=4) yields the original three bytes, not an error (bounded twin; counterexample provider)
 #[kani::proof]
-#[kani::unwind(10)]
+#[kani::unwind(7)]
 fn c14_decoder_short_reads_bounded() {
     let a: u8 = kani::any();
     let b: u8 = kani::any();
@@ -78,20 +78,10 @@ fn c14_decoder_short_reads_bounded() {
     kani::assume(step >= 1 && step <= 4);
     let reader = SlowReader { data: [q[0], q[1], q[2], q[3], 0, 0, 0, 0], len: 4, pos: 0, step };
     let mut dec = Base64Decoder::new(reader);
-    let mut out = [0u8; 6];
-    let want: usize = kani::any();
-    kani::assume(want >= 1 && want <= 6);
-    let mut got = 0usize;
-    let mut rounds = 0;
-    while got < 3 && rounds < 4 {
-        let hi = if got + want > 6 { 6 } else { got + want };
-        match dec.read(&mut out[got..hi]) {
-            Ok(0) => break,
-            Ok(n) => got += n,
-            Err(_) => { assert!(false, "valid text reported as an error"); }
-        }
-        rounds += 1;
+    let mut out = [0u8; 3];
+    match dec.read(&mut out) {
+        Ok(n) => assert!(n == 3 && out[0] == a && out[1] == b && out[2] == c),
+        Err(_) => assert!(false, "valid text reported as an error"),
     }
-    assert!(got == 3 && out[0] == a && out[1] == b && out[2] == c);
-    kani::cover!(step == 1 && want == 1);
+    kani::cover!(step == 1);
 }
